@@ -16,11 +16,13 @@ FILTERS = {"movimm": is_movimm}
 
 # property -> list of plans: (corpus, ctx, modes, quick sample size, thorough sample size, filter name, thorough-only)
 PLANS = {
-    "C01": [("C01", "solo0,solo37", "plain", 9000, None, None, False)],
+    "C01": [("C01", "solo0,solo37", "plain", 9000, None, None, False), ("C01", "solo37", "fit", 1500, None, None, False)],
     "C02": [(c, "solo0", "plain", 1400, None, None, False) for c in ("C02a", "C02b", "C02c", "C02d", "C02e", "C02f", "C02g", "C02h", "C02i", "C02j")],
     "C03": [("C03", "solo0", "plain", 7000, None, None, False)],
     "C04": [("C04a", "solo0", "plain", 3000, None, None, False), ("C04b", "solo0", "plain", 2500, None, None, False),
             ("C04c", "solo0", "plain", 2000, None, None, False),
+            # chunk fitting assembles an instruction a second time after padding: the same forms at an offset where they do not fit the chunk
+            ("C04a", "solo37", "fit", 1200, None, None, False), ("C04b", "solo37", "fit", 800, None, None, False), ("C04c", "solo37", "fit", 600, None, None, False),
             ("C04d", "solo0", "plain", 0, None, None, True), ("C04e", "solo0", "plain", 0, None, None, True),
             ("C04f", "solo0", "plain", 0, None, None, True)],
     "C05": [("C05", "solo0,solo37", "plain", 6000, None, None, False), ("C05m", "solo0", "plain", 2500, None, None, False)],
